@@ -42,3 +42,81 @@ package util
 //@   modifies stream(r)
 //@   ensures err == nil ==> c != nil && ref(c) > 0 && forall(t, 0, 256, cval(c, t) == tlvget(old(stream(r)), t))
 //@   ensures err != nil ==> c == nil
+
+// ---------------------------------------------------------------- file storage (C18, C19)
+// keypath(f, key): the file that holds key in store f.
+//@ pred keypath(f, key) = pathjoin(f.dirPath, strdel(key, ":"))
+
+//@ func removeInvalidFileNameCharacters(fname) (r)
+//@   pure
+//@   ensures r == strdel(fname, ":")
+//@ func (f *fileStorage) dir() (d)
+//@   requires f != nil
+//@   pure
+//@   ensures d == f.dirPath
+//@ func (f *fileStorage) filePathToFile(file) (p)
+//@   requires f != nil
+//@   pure
+//@   ensures p == keypath(f, file)
+//@ func (f *fileStorage) fileForRead(key) (file, err)
+//@   requires f != nil
+//@   modifies fsex(keypath(f, key)), fsdata(keypath(f, key))
+//@   ensures fsex(keypath(f, key)) == old(fsex(keypath(f, key))) && fsdata(keypath(f, key)) == old(fsdata(keypath(f, key)))
+//@   ensures err == nil ==> file != nil && fresh(file) && fpath(file) == keypath(f, key) && foff(file) == 0 && fsex(keypath(f, key))
+//@   ensures err != nil ==> file == nil
+//@   ensures !fsex(keypath(f, key)) ==> err != nil
+
+// Set(k, v): afterwards the key holds exactly v (C18); at every point between two file-system effects the key's file holds
+// either its previous or the new content and every other file except the key's temporary file is untouched (C19).
+//@ func (f *fileStorage) Set(key, value) (err)
+//@   refines "github.com/brutella/hc/util.Storage.Set"
+//@   requires f != nil
+//@   modifies fsex(keypath(f, key)), fsdata(keypath(f, key)), fsex(keypath(f, key) + ".tmp"), fsdata(keypath(f, key) + ".tmp")
+//@   ensures stored: err == nil ==> fsex(keypath(f, key)) && fsdata(keypath(f, key)) == old(seq(value))
+//@   ensures failed: err != nil ==> fsex(keypath(f, key)) == old(fsex(keypath(f, key))) && fsdata(keypath(f, key)) == old(fsdata(keypath(f, key)))
+//@   crash others: forallv("p:str", p != keypath(f, key) && p != keypath(f, key) + ".tmp" ==> fsex(p) == old(fsex(p)) && fsdata(p) == old(fsdata(p)), fsex(p))
+//@   crash oldOrNew: (fsex(keypath(f, key)) == old(fsex(keypath(f, key))) && (fsex(keypath(f, key)) ==> fsdata(keypath(f, key)) == old(fsdata(keypath(f, key))))) || (fsex(keypath(f, key)) && fsdata(keypath(f, key)) == old(seq(value)))
+
+//@ func (f *fileStorage) Delete(key) (err)
+//@   refines "github.com/brutella/hc/util.Storage.Delete"
+//@   requires f != nil
+//@   modifies fsex(keypath(f, key))
+//@   ensures err == nil ==> !fsex(keypath(f, key))
+//@   ensures err != nil ==> fsex(keypath(f, key)) == old(fsex(keypath(f, key)))
+
+//@ func (f *fileStorage) Get(key) (b, err)
+//@   refines "github.com/brutella/hc/util.Storage.Get"
+//@   requires f != nil
+//@   modifies fsex(keypath(f, key)), fsdata(keypath(f, key))
+//@   ensures same: fsex(keypath(f, key)) == old(fsex(keypath(f, key))) && fsdata(keypath(f, key)) == old(fsdata(keypath(f, key)))
+//@   ensures found: err == nil ==> fsex(keypath(f, key)) && seq(b) == fsdata(keypath(f, key))
+//@   ensures missing: !old(fsex(keypath(f, key))) ==> err != nil
+//@   loop 0
+//@     invariant file: file != nil && fpath(file) == keypath(f, key) && 0 <= foff(file) && foff(file) <= len(fsdata(keypath(f, key)))
+//@     invariant read: stream(addr(b)) == sub(fsdata(keypath(f, key)), 0, foff(file))
+//@     invariant same: fsex(keypath(f, key)) && fsdata(keypath(f, key)) == old(fsdata(keypath(f, key))) && old(fsex(keypath(f, key)))
+//@     invariant buf: len(buffer) == 32
+
+// ---- Storage seen through its interface: stex(s, k) / stval(s, k) = the key-value map of store s.
+// For fileStorage the map is read through the ghost file system (abstraction): that is what "survives restarts" means -
+// a store holds no state besides dirPath, so re-opening the directory gives the same map.
+//@ ghost stex(ref, str) bool
+//@ ghost stval(ref, str) seq
+//@ abstraction stex(f, k) = fsex(keypath(f, k))
+//@ abstraction stval(f, k) = fsdata(keypath(f, k))
+//@ invoke "github.com/brutella/hc/util.Storage.Set"(s, key, value) (err)
+//@   modifies stex(s, key), stval(s, key)
+//@   ensures stored: err == nil ==> stex(s, key) && stval(s, key) == old(seq(value))
+//@   ensures failed: err != nil ==> stex(s, key) == old(stex(s, key)) && stval(s, key) == old(stval(s, key))
+//@ invoke "github.com/brutella/hc/util.Storage.Get"(s, key) (b, err)
+//@   fresh b
+//@   pure
+//@   ensures found: err == nil ==> stex(s, key) && seq(b) == stval(s, key)
+//@   ensures missing: !stex(s, key) ==> err != nil
+//@ invoke "github.com/brutella/hc/util.Storage.Delete"(s, key) (err)
+//@   modifies stex(s, key)
+//@   ensures err == nil ==> !stex(s, key)
+//@   ensures err != nil ==> stex(s, key) == old(stex(s, key))
+//@ invoke "github.com/brutella/hc/util.Storage.KeysWithSuffix"(s, suffix) (keys, err)
+//@   fresh keys
+//@   pure
